@@ -25,7 +25,8 @@
    only as far as it decides d_twice: the flag [ty] below.  Contexts: initialisers, assigned values,
    returned values, call arguments, println arguments, branches of ?: are typed; conditions of
    if/while/for, the condition of ?:, index expressions and expression statements are not; operands
-   of a comparison are typed, operands of every other operator inherit the flag. *)
+   of a comparison are typed, the operand of ~ is untyped, operands of every other operator inherit
+   the flag. *)
 From Coq Require Import List ZArith Bool Arith.
 From Cb Require Import Lang.Syntax Lang.Sem Lang.Print C03.Model.
 Import ListNotations.
@@ -37,6 +38,10 @@ Definition dev_pinned : dev := {| d_noshort := true; d_rtl := true; d_twice := t
 
 Definition is_cmp (o : binop) : bool :=
   match o with Lt | Le | Gt | Ge | Eq | Ne => true | _ => false end.
+
+(* evaluate_unary_op_typed handles - and ! itself (typed operand); ~ falls back to
+   evaluate_expression(node), the untyped evaluator *)
+Definition un_typed (o : unop) : bool := match o with BNot => false | _ => true end.
 
 (* run [m] again (from the state it left) when it failed: println's fallback path *)
 Definition retry {A} (m : M A) : M A := fun s =>
@@ -100,7 +105,7 @@ Fixpoint ieval (n : nat) (ty : bool) (e : expr) {struct n} : M Z :=
     match e with
     | ENum z => ret z
     | EVar x => m_read x []
-    | EUn o a => v <- ieval k ty a ;; lift (unarith o v)
+    | EUn o a => v <- ieval k (ty && un_typed o) a ;; lift (unarith o v)
     | EBin o a b => x <- ieval k (ty || is_cmp o) a ;; y <- ieval k (ty || is_cmp o) b ;; lift (arith o x y)
     | EAnd a b => if d_noshort D then ns_and (ieval k ty a) (ieval k ty b) else sc_and (ieval k ty a) (ieval k ty b)
     | EOr a b => if d_noshort D then ns_or (ieval k ty a) (ieval k ty b) else sc_or (ieval k ty a) (ieval k ty b)
